@@ -996,6 +996,9 @@ def corpus():
         ('c-close-while-buffered-peer-abort', 1, [[CC, 0], [CW, 0, 8000000], [CX, 0], [HA, 0]]),
         ('c-write-races-with-close-then-reconnect', 1, [[CC, 0], [CX, 0, 'nw'], [CW, 0, 1000], [CC, 0], [HS, 0, 5], [CX, 0], [HC, 0]]),
         ('c-write-then-peer-close', 1, [[CC, 0], [CW, 0, 100], [HC, 0, 'nw'], [CW, 0, 100], [CW, 0, 100]]),
+        # a connection that ends abruptly while the client still holds unsent data must leave nothing behind for the NEXT connection
+        ('c-abort-while-buffered-then-reconnect-and-close', 1, [[CC, 0], [CW, 0, 8000000], [CW, 0, 1000], [CW, 0, 10], [HA, 0], [CC, 0], [HS, 0, 5], [CX, 0], [HC, 0]]),
+        ('c-peer-close-while-buffered-then-reconnect-and-close', 1, [[CC, 0], [CW, 0, 8000000], [CW, 0, 1000], [HC, 0], [CC, 0], [CX, 0], [HC, 0]]),
     ]
     for name, n, ops in chs:
         for poller in POLLERS:
